@@ -284,3 +284,94 @@ Proof.
     split; [cbn; auto|]. split; [lia|]. intros c0 [<-|Hin] Hc; [lia|].
     pose proof (min_ge_none r n E c0 Hin). lia.
 Qed.
+
+(* ------------------------------------------------------------------ *)
+(* lines 250-308 = encode_pass                                         *)
+(* ------------------------------------------------------------------ *)
+Fixpoint count_eq (n : N) (l : list N) : N :=
+  match l with
+  | [] => 0
+  | c :: r => (if c =? n then 1 else 0) + count_eq n r
+  end.
+
+Definition st_rel (b : N) (st : pst) (e : est) : Prop :=
+  p_delta st = e_delta e /\ p_h st = e_h e /\ p_bias st = e_bias e /\
+  p_first st = (e_h e =? b).
+
+Lemma enc_loop_spec b s cps : utf8_string s cps -> forall fuel n st e w,
+  (length s <= fuel)%nat -> st_rel b st e ->
+  e_delta e < 4294967296 -> e_bias e < 4294967296 ->
+  e_h e + count_eq n cps + 1 < 4294967296 -> b <= e_h e ->
+  count_eq n cps <= p_todo st -> p_todo st < 4294967296 ->
+  fst (enc_loop (list N) cons fuel s n st w) = None \/
+  exists st',
+    enc_loop (list N) cons fuel s n st w = (Some st', rev (snd (encode_pass cps n b e)) ++ w) /\
+    st_rel b st' (fst (encode_pass cps n b e)) /\
+    p_todo st' = p_todo st - count_eq n cps /\
+    e_h (fst (encode_pass cps n b e)) = e_h e + count_eq n cps /\
+    e_bias (fst (encode_pass cps n b e)) < 4294967296 /\
+    e_delta (fst (encode_pass cps n b e)) < 4294967296 /\
+    e_delta (fst (encode_pass cps n b e))
+      <= (if count_eq n cps =? 0 then e_delta e else 0) + N.of_nat (length cps).
+Proof.
+  induction 1 as [|bs v rest cps W S IH]; intros fuel n st e w Hf HR Hd Hb Hh Hbh Ht Ht2.
+  - right. exists st. destruct fuel; cbn [enc_loop encode_pass count_eq fst snd rev app length] in *;
+      (split; [reflexivity|]); (split; [exact HR|]); repeat split; try lia.
+  - destruct (wf_cons bs v W) as (b0 & bs' & ->).
+    rewrite app_length in Hf. cbn [length] in Hf.
+    destruct fuel as [|f]; [lia|].
+    destruct st as [delta h bias frst todo]. destruct e as [ed eb eh].
+    destruct HR as (R1 & R2 & R3 & R4). cbn [p_delta p_h p_bias p_first p_todo e_delta e_bias e_h] in *.
+    subst ed eh eb.
+    cbn [app enc_loop]. change (b0 :: bs' ++ rest) with ((b0 :: bs') ++ rest).
+    rewrite (utf8_decode_sound _ v rest W).
+    cbn [p_delta p_h p_bias p_first p_todo].
+    cbn [count_eq] in Hh, Ht. cbn [encode_pass e_delta e_bias e_h count_eq length].
+    destruct (N.ltb_spec v n) as [Lvn|Lvn].
+    + (* c < n: increment delta *)
+      destruct (N.eqb_spec v n) as [|Nvn]; [lia|]. cbn [andb negb].
+      destruct (N.eqb_spec (u32 (delta + 1)) 0) as [Z|NZ]; [left; reflexivity|].
+      assert (Hd1 : delta + 1 < 4294967296).
+      { unfold u32 in NZ. destruct (N.eq_dec (delta + 1) 4294967296) as [E|E]; [rewrite E in NZ; cbn in NZ; lia|lia]. }
+      rewrite u32_small in * by lia.
+      destruct (IH f n (mkP (delta + 1) h bias frst todo) (mkE (delta + 1) bias h) w) as [L|(st' & E1 & E2 & E3 & E4 & E5 & E6 & E7)];
+        try (cbn [p_todo e_delta e_bias e_h]; lia).
+      { repeat split; assumption. }
+      { left; exact L. }
+      right. exists st'. rewrite E1. split; [reflexivity|]. split; [exact E2|].
+      cbn [p_todo e_delta e_h] in *. repeat split; try lia.
+      destruct (count_eq n cps =? 0); lia.
+    + cbn [andb].
+      destruct (N.eqb_spec v n) as [Evn|Nvn]; cbn [negb].
+      * (* c == n: emit delta, adapt *)
+        subst v.
+        pose proof (size_nat_32 delta Hd) as Hs.
+        rewrite digits_eq by lia.
+        pose proof (adapt_model delta h frst Hd ltac:(lia)) as [EA HA]. cbv zeta in EA.
+        destruct (adapt_loop _ 0 _) as [bias' d'] eqn:EAL.
+        rewrite EA. rewrite (u32_small (h + 1)) by lia.
+        rewrite (usub_small todo 1) by lia.
+        set (bias2 := adapt delta (h + 1) frst) in *.
+        rewrite R4. fold bias2.
+        destruct (encode_pass cps n b (mkE 0 bias2 (h + 1))) as [e' out'] eqn:EP.
+        destruct (IH f n (mkP 0 (h + 1) bias2 false (todo - 1)) (mkE 0 bias2 (h + 1))
+                    (rev (encode_int (S (N.size_nat delta)) delta 36 bias) ++ w))
+          as [L|(st' & E1 & E2 & E3 & E4 & E5 & E6 & E7)];
+          try (cbn [p_todo e_delta e_bias e_h]; lia).
+        { repeat split; try reflexivity. cbn [p_first e_h]. symmetry. apply N.eqb_neq. lia. }
+        { left; exact L. }
+        right. exists st'. rewrite E1. rewrite EP in *. cbn [fst snd] in *.
+        split; [rewrite rev_app_distr, <- app_assoc; reflexivity|].
+        split; [exact E2|]. cbn [p_todo e_delta e_h] in *.
+        replace (1 + count_eq n cps =? 0) with false by (symmetry; apply N.eqb_neq; lia).
+        repeat split; try lia.
+        destruct (count_eq n cps =? 0); lia.
+      * destruct (IH f n (mkP delta h bias frst todo) (mkE delta bias h) w)
+          as [L|(st' & E1 & E2 & E3 & E4 & E5 & E6 & E7)];
+          try (cbn [p_todo e_delta e_bias e_h]; lia).
+        { repeat split; assumption. }
+        { left; exact L. }
+        right. exists st'. rewrite E1. split; [reflexivity|]. split; [exact E2|].
+        cbn [p_todo e_delta e_h] in *. repeat split; try lia.
+        destruct (count_eq n cps =? 0); lia.
+Qed.
